@@ -29,7 +29,7 @@ import (
 )
 
 var (
-	names = []string{"A", "B"}
+	names = []string{"A", "B", "N"} // N = no alertname label at all: such alerts share the name "" and its limit
 	nIDs  = 7
 )
 
@@ -46,7 +46,17 @@ func (w *world) abs(off int64) time.Time { return w.t0.Add(time.Duration(off)) }
 func (w *world) rel(t time.Time) int64    { return int64(t.Sub(w.t0)) }
 
 func lset(name string, id int) model.LabelSet {
+	if name == "N" {
+		return model.LabelSet{"i": model.LabelValue(strconv.Itoa(id))}
+	}
 	return model.LabelSet{"alertname": model.LabelValue(name), "i": model.LabelValue(strconv.Itoa(id))}
+}
+
+func nameTok(n string) string {
+	if n == "" {
+		return "N"
+	}
+	return n
 }
 
 func (w *world) alert(name string, id int, ends int64) *types.Alert {
@@ -71,7 +81,7 @@ func (w *world) dump() string {
 	var rows []string
 	if w.layer == "store" {
 		for _, a := range w.st.List() {
-			rows = append(rows, fmt.Sprintf("%s:%s:%d", a.Name(), a.Labels["i"], w.rel(a.EndsAt)))
+			rows = append(rows, fmt.Sprintf("%s:%s:%d", nameTok(a.Name()), a.Labels["i"], w.rel(a.EndsAt)))
 		}
 	} else {
 		for _, n := range names {
@@ -244,8 +254,11 @@ func runCase(t *testing.T, tr *hx.Trace, id int, r *rand.Rand, script []string) 
 				now += int64(time.Millisecond) // never operate exactly at a GC tick
 			}
 			name := names[0]
-			if r.IntN(4) == 0 {
+			switch r.IntN(8) {
+			case 0, 1:
 				name = names[1]
+			case 2:
+				name = names[2]
 			}
 			aid := r.IntN(nIDs)
 			ends := (now/minute)*minute + hx.Pick(r, offs)
